@@ -11,6 +11,8 @@ Called from c15.run (`run_part`).  Parts:
                 asl on its own (labels by equ) and must give the bytes back (C); M87C.disassemble against the real line (B)
  * sweep      - all first bytes x second bytes (x sampled further bytes) on a raster: M87C.disassemble / the whole listing against the
                 real dasl (B)
+ * top        - raw images at the end of the address space (probe_top87): RetrieveData of deco87c800.c ends with 0FFFFh (repaired), the
+                model against the real listing (B), the reported areas inside the image (C; theorem C15_87c_honest_at)
 Known defects of deco87c800.c are handled as labelled harness rewrites of dasl's text (so that the rest of a listing is still checked)
 and reported with a signature by input class (`deco87c800-...`)."""
 import json
@@ -742,6 +744,34 @@ def probe_hang(bdir, wd):
                                  dasl_stdout=so.decode("latin-1")[:300]), req
 
 
+def probe_top87(bdir, wd):
+    """raw TLCS-870 images at the end of the address space (deco87c800.c RetrieveData; the continuation at address 0 was repaired with
+    29b7faa, signature `dasl-instruction-wraps-64k` is listed as fixed): an instruction that would need bytes
+    behind 0FFFFh, a prefixed one whose second opcode byte would, an opcode asked for at 10000h, and instructions that end exactly
+    at 0FFFFh: [(name, sig, `run` request, info)]"""
+    out = []
+    for name, sig, chunks_, entry in (
+            ("wrap", "dasl-instruction-wraps-64k", [(0xfffe, bytes([0x14, 0x34])), (0x0000, bytes([0x12]))], 65534),
+            ("wrap-at-ffff", "dasl-instruction-wraps-64k", [(0xffff, bytes([0x14])), (0x0000, bytes([0x34, 0x12, 0x05]))], 65535),
+            ("wrap-prefix", "dasl-instruction-wraps-64k", [(0xfffe, bytes([0xe0, 0x12])), (0x0000, bytes([0x77, 0x55, 0x05]))], 65534),
+            ("wrap-entry-10000", "dasl-instruction-wraps-64k", [(0xfffe, bytes([0x00, 0x00])), (0x0000, bytes([0x05]))], 65536),
+            ("top-byte", None, [(0xfffc, bytes([0xe0, 0x12, 0x77, 0x55]))], 65532),
+            ("top-ret", None, [(0xfffe, bytes([0x00, 0x05]))], 65535)):
+        largs = []
+        for i, (st, d) in enumerate(chunks_):
+            bf = os.path.join(wd, "top_%s%d.bin" % (name, i))
+            open(bf, "wb").write(d)
+            largs += ["-binfile", "%s@%d" % (bf, st)]
+        rc, so, se = common.run_tool(bdir, "dasl", ["-cpu", "87C00"] + largs + ["-entryaddress", str(entry)], wd, timeout=10)
+        to = rc == "timeout"
+        req = "run 0 %s 1 d:%d %s %s %s none" % (chunks_txt(chunks_), entry, "timeout" if to else rc, "-" if to else (so.hex() or "-"),
+                                                "-" if to else (se.hex() or "-"))
+        out.append((name, sig, req, dict(cpu87c=True, image=[(st, d.hex()) for st, d in chunks_], entry=entry, dasl_rc=rc,
+                                         dasl_args="-cpu 87C00 " + " ".join("-binfile <%s>@%d" % (d.hex(), st) for st, d in chunks_) + " -entryaddress %d" % entry,
+                                         dasl_stdout=so.decode("latin-1")[:600], dasl_stderr=se.decode("latin-1")[:300])))
+    return out
+
+
 def sweep_slots(rng, tier, seed, hang_present):
     """[(b0, b1, b2, b3)]: all first bytes x second bytes in the thorough tier (one sample of further bytes), a rotating subset in the
     quick tier: every first byte with 12 second bytes, and the prefix bytes E0..F7 with a third of all second bytes"""
@@ -899,6 +929,7 @@ def run_part(args, bdir, ok):
         dist["pool_statements"] = len(pool)
         dist["pool_known_bad"] = sum(1 for p in pool if p["sig"])
         hang_present, hang_info, hang_req = probe_hang(bdir, wd)
+        top87 = probe_top87(bdir, wd)
         dist["hang_probe"] = "endless loop" if hang_present else "terminates"
         case_timeout = 20
 
@@ -1025,12 +1056,13 @@ def run_part(args, bdir, ok):
                 sw_reqs.append(ins_request(lower, a, bytes(rr["image"][0][1][a - base:a - base + SLOT]), rr["vec"], rr["listing"][a]))
                 sw_metas.append(dict(addr=a, bytes=bs.hex(), dasl_text=rr["listing"][a][0].decode("latin-1"), dasl_len=rr["listing"][a][1], lower=lower))
 
-    all_run = reqs + [x[0] for x in st_run_reqs] + [x[0] for x in sw_run_reqs] + [hang_req]
+    all_run = reqs + [x[0] for x in st_run_reqs] + [x[0] for x in sw_run_reqs] + [hang_req] + [t[2] for t in top87]
     ans_run = common.driver("c15_87", all_run, timeout=3600) if ok and all_run else []
     a1 = ans_run[:len(reqs)]
     a2 = ans_run[len(reqs):len(reqs) + len(st_run_reqs)]
     a3 = ans_run[len(reqs) + len(st_run_reqs):len(reqs) + len(st_run_reqs) + len(sw_run_reqs)]
-    a4 = ans_run[len(reqs) + len(st_run_reqs) + len(sw_run_reqs):]
+    a4 = ans_run[len(reqs) + len(st_run_reqs) + len(sw_run_reqs):len(reqs) + len(st_run_reqs) + len(sw_run_reqs) + 1]
+    a5 = ans_run[len(reqs) + len(st_run_reqs) + len(sw_run_reqs) + 1:]
     ans_st = common.driver("c15_87", st_reqs, timeout=3600) if ok and st_reqs else []
     ans_sw = common.driver("c15_87", sw_reqs, timeout=3600) if ok and sw_reqs else []
     ans_j = common.driver("c15_87", j_reqs, timeout=3600) if ok and j_reqs else []
@@ -1131,6 +1163,19 @@ def run_part(args, bdir, ok):
             corr_fail.append(dict(tag="probe:inv16", why="the Lean model and the real dasl disagree about termination on EC 02 (model hang=%s, real %s)" %
                                   (kv.get("hang"), "endless loop" if hang_present else "terminates"), **hang_info))
 
+    # ---- the end of the address space (C15_87c_honest_at / C15_87c_no_wrap_instruction on the real dasl)
+    for (name, sig, _req, info), ans in zip(top87, a5):
+        kv = kv_of(ans)
+        dist["top_of_memory_probes"] = dist.get("top_of_memory_probes", 0) + 1
+        if kv.get("text") != "eq" or kv.get("err") != "eq" or kv.get("areas") != "eq" or kv.get("rc") != "eq" or kv.get("hang") != "0":
+            corr_fail.append(dict(tag="top87:" + name, why="dasl's output for an image at the end of the address space differs from the Lean model "
+                                  "(text=%s err=%s areas=%s rc=%s hang=%s)" % (kv.get("text"), kv.get("err"), kv.get("areas"), kv.get("rc"), kv.get("hang")),
+                                  model_stdout=model_text(kv)[:3000], **info))
+        if kv.get("inside") != "ok" or kv.get("disjoint") != "ok":
+            spec_fail.append(dict(sig=sig, tag="top87:" + name, why="a reported code area is not inside the loaded image (inside=%s)" % kv.get("inside"), **info))
+        if int(kv.get("undef", 0)):
+            spec_fail.append(dict(sig=sig, tag="top87:" + name, why="the byte dump of a listing line shows %s byte(s) of memory dasl never wrote" % kv.get("undef"), **info))
+
     # ---- jumps and calls: the assembler-side model A87C.encode against the real asl, and the round-trip theorem's prediction
     for (tag, desc), ans in zip(j_metas, ans_j):
         kv = kv_of(ans)
@@ -1215,10 +1260,11 @@ def run_part(args, bdir, ok):
                     "addresses or vector entries, ORG blocks in ascending/descending/shuffled/interleaved/rotated/one-displaced source order (not for the page FE/FF features), -binfile@start, Intel -hexfile written by p2hex or by the harness (record orders as in c15.py), optionally -h; plus every pool statement on an 8-byte raster re-assembled "
                     "on its own; plus first byte x second byte (x sampled further bytes) against the model; plus, as bytes (`db`), every instruction shape with a direct address operand "
                     "for the addresses 0 and 255 (synthesized from the encodings of the addresses 1 and 2), in the statement raster and in the programs; callp with labels "
-                    "defined further down (half of them written as numbers, dasl prints a label in either case)",
+                    "defined further down (half of them written as numbers, dasl prints a label in either case); raw images at the end of the address space "
+                    "(an instruction / a second opcode byte that would lie behind 0FFFFh, an entry at 10000h, instructions ending at 0FFFFh)",
                trusted=["87C800: statement inventory and instruction lengths are taken from the real asl (probe runs), not from a table of the harness",
                         "87C800: per-statement re-assembly defines the labels dasl invented by equ lines, one statement per org"])
-    evaluations = len(reqs) + len(st_reqs) + len(sw_reqs) + len(j_reqs)
+    evaluations = len(reqs) + len(st_reqs) + len(sw_reqs) + len(j_reqs) + len(top87)
     return dict(spec_fail=spec_fail, corr_fail=corr_fail, proof_problems=problems, coverage=cov, evaluations=evaluations, distinct=len(distinct))
 
 
@@ -1253,6 +1299,17 @@ def replay(d):
             if rew:
                 m3, e3 = c15.asm(bdir, wd, "r2", txt, "87C00")
                 print("re-assembly after the harness rewrites %s:" % ",".join(rew), "ok" if m3 is not None else e3)
+        elif isinstance(d.get("image"), list) and "entry" in d:
+            # a raw image at the end of the address space (probe_top87)
+            largs = []
+            for i, (st, hx) in enumerate(d["image"]):
+                bf = os.path.join(wd, "top%d.bin" % i)
+                open(bf, "wb").write(bytes.fromhex(hx))
+                largs += ["-binfile", "%s@%d" % (bf, st)]
+            rc, so, se = common.run_tool(bdir, "dasl", ["-cpu", "87C00"] + largs + ["-entryaddress", str(d["entry"])], wd, timeout=10)
+            print("dasl %s -> rc %s" % (d.get("dasl_args"), rc))
+            print(so.decode("latin-1"))
+            print(se.decode("latin-1"))
         elif "image" in d and "start" in d:
             img = bytes.fromhex(d["image"]) + bytes([FILL] * 4)
             bf = os.path.join(wd, "i.bin")
